@@ -71,3 +71,49 @@ package storage
 //@   ensures [only-body] forall k mathint :: {badger.dbget(*s.cacheDB, k)} k != PK(tx.hash) ==> badger.dbget(*s.cacheDB, k) == old(badger.dbget(*s.cacheDB, k))
 //@   ensures [stored] err == nil ==> DbBody(*s.cacheDB, tx.hash) != 0
 //@   ensures [body-hash] let H == tx.hash in err == nil && old(DbBody(*s.cacheDB, H)) == 0 ==> common.TxHashOfVal(DbBody(*s.cacheDB, H)) == H
+
+//@ -- ═════════ queueing ═════════
+//@ -- cacheQueueTransaction: already marked ==> nothing changes; otherwise the marker, the body and ONE new scheduling record (timestamped
+//@ -- by the wall clock) are written together ([queued] names the record through an existential over its timestamp). Nothing but these
+//@ -- three records of tx's hash changes. A Get error other than NotFound is treated like "not marked" by the code.
+//@ func (s *BadgerStore) cacheQueueTransaction
+//@   property C23
+//@   requires CacheOK(s) && tx != nil
+//@   requires [decoded] common.DecodedTx(&tx.SignedTransaction)
+//@   modifies *s.cacheDB, tx.hash, tx.pmbytes
+//@   ensures [atomic] err != nil ==> *s.cacheDB == old(*s.cacheDB)
+//@   ensures [marked] err == nil ==> DbMarked(*s.cacheDB, tx.hash)
+//@   ensures [already] let H == tx.hash in old(DbMarked(*s.cacheDB, H)) ==> err != nil || *s.cacheDB == old(*s.cacheDB) || (DbBody(*s.cacheDB, H) != 0 && DbQueued(*s.cacheDB, H))
+//@   ensures [queued] let H == tx.hash in err == nil && !old(DbMarked(*s.cacheDB, H)) ==> DbBody(*s.cacheDB, H) != 0 && common.TxHashOfVal(DbBody(*s.cacheDB, H)) == H && DbQueued(*s.cacheDB, H)
+//@   ensures [frame] forall k mathint :: {badger.dbget(*s.cacheDB, k)} keyhid(k) != kvval(tx.hash) || (keykind(k) != 10 && keykind(k) != 11 && keykind(k) != 12) ==> badger.dbget(*s.cacheDB, k) == old(badger.dbget(*s.cacheDB, k))
+//@   ensures [only-adds] forall k mathint :: {badger.dbget(*s.cacheDB, k)} old(badger.dbget(*s.cacheDB, k)) != 0 ==> badger.dbget(*s.cacheDB, k) != 0
+
+//@ -- ═════════ removal: "removal deletes the body" ═════════
+//@ -- One Update per batch; the closure deletes the body and the marker of hashes[0..min(len-1, batch)] (note the `i == batch` test AFTER
+//@ -- the deletes: 101 hashes per full batch, so hash number `batch` is deleted twice -- harmless).
+//@ func (s *BadgerStore) CacheRemoveTransactions$1
+//@   property C23
+//@   requires txn != nil && iscell(txn) && batch == 100
+//@   modifies *txn
+//@   ensures [removed] err == nil ==> forall j int :: {hashes[j]} 0 <= j && j < len(hashes) && j <= batch ==> Body(*txn, hashes[j]) == 0 && !Marked(*txn, hashes[j])
+//@   ensures [only-deleted] forall k mathint :: {badger.kvget(*txn, k)} badger.kvget(*txn, k) == old(badger.kvget(*txn, k)) || (badger.kvget(*txn, k) == 0 && (keykind(k) == 11 || keykind(k) == 12))
+//@   loop 0 invariant [removed] forall j int :: {hashes[j]} 0 <= j && j <= rangeindex ==> Body(*txn, hashes[j]) == 0 && !Marked(*txn, hashes[j])
+//@   loop 0 invariant [only-deleted] forall k mathint :: {badger.kvget(*txn, k)} badger.kvget(*txn, k) == old(badger.kvget(*txn, k)) || (badger.kvget(*txn, k) == 0 && (keykind(k) == 11 || keykind(k) == 12))
+//@   loop 0 invariant [bound] rangeindex < batch && batch == 100
+
+//@ -- CacheRemoveTransactions: every hash of the list loses its body and its marker (scheduling records are left to the next retrieval,
+//@ -- which finds no body and returns nothing for them); nothing is ever written, only PAYLOAD/ORDER records are deleted. `cur_hashes` is the
+//@ -- current value of the (captured, re-sliced) parameter: a suffix of the original list whose earlier part is done.
+//@ func (s *BadgerStore) CacheRemoveTransactions
+//@   property C23
+//@   requires s != nil && s.cacheDB != nil
+//@   modifies *s.cacheDB
+//@   ensures [removed] err == nil ==> forall j int :: {hashes[j]} 0 <= j && j < len(hashes) ==> DbBody(*s.cacheDB, hashes[j]) == 0 && !DbMarked(*s.cacheDB, hashes[j])
+//@   ensures [only-deleted] forall k mathint :: {badger.dbget(*s.cacheDB, k)} badger.dbget(*s.cacheDB, k) == old(badger.dbget(*s.cacheDB, k)) || (badger.dbget(*s.cacheDB, k) == 0 && (keykind(k) == 11 || keykind(k) == 12))
+//@   loop 0 invariant [suffix] len(cur_hashes) <= len(hashes) && batch == 100 && cur_hashes == hashes[len(hashes) - len(cur_hashes):]
+//@   loop 0 invariant [done] forall j int :: {hashes[j]} 0 <= j && j < len(hashes) - len(cur_hashes) ==> DbBody(*s.cacheDB, hashes[j]) == 0 && !DbMarked(*s.cacheDB, hashes[j])
+//@   loop 0 invariant [only-deleted] forall k mathint :: {badger.dbget(*s.cacheDB, k)} badger.dbget(*s.cacheDB, k) == old(badger.dbget(*s.cacheDB, k)) || (badger.dbget(*s.cacheDB, k) == 0 && (keykind(k) == 11 || keykind(k) == 12))
+//@   -- proof guidance (checked, then assumed): the closure's [removed] clause re-indexed to the original list; the body names the element
+//@   -- cur_hashes[j - D] of the current window explicitly so that the solver instantiates the closure's clause there
+//@   hint after Update [batch] let D == len(hashes) - len(cur_hashes) in callresult == nil ==> forall j int :: {hashes[j]} D <= j && j < len(hashes) && j - D <= 100 ==>
+//@       DbBody(*s.cacheDB, cur_hashes[j - D]) == 0 && !DbMarked(*s.cacheDB, cur_hashes[j - D])
